@@ -199,6 +199,21 @@ int main(int argc, char **argv) {
         for(auto &h : HS) { check_note(X, L, h, o); if(o.bad) return; }
         o.units = HS.size(); o.nontrivial = true; };
       fams.push_back(F); }
+    { // banks taken away again through opn2_removeBank: "when that entry exists" must follow the removals (several banks share hash buckets of the bank map: melodic 0/0 with percussion 0, melodic 0/1 ... so the order of removals matters to the map)
+      const uint64_t NP = 7 + 7 * 6 + (thorough ? 7 * 6 * 5 : 0);
+      en::Family F; F.name = "layouts_after_removals"; F.count = NP * 2; F.chunk = 2; F.budget_s = 60; F.describe = std::string("the full 8-bank layout, then every single bank, every ordered pair") + (thorough ? " and every ordered triple" : "") + " of the 7 optional banks removed through opn2_removeBank x blank pattern {none, alternate}: every history must resolve as on the layout without those banks";
+      F.run = [](uint64_t i, en::CaseOut &o) { uint64_t r = i / 2; Layout L; L.present = 0xFF; L.blankA = 0; L.blankB = (i & 1) ? 0xAA : 0; std::vector<int> rm;
+        if(r < 7) rm = {(int)r + 1}; else if(r < 7 + 42) { uint64_t x = r - 7; int a = (int)(x / 6), b = (int)(x % 6); if(b >= a) b++; rm = {a + 1, b + 1}; }
+        else { uint64_t x = r - 49; int a = (int)(x / 30), b = (int)((x / 5) % 6), c = (int)(x % 5); std::vector<int> pool; for(int k = 0; k < 7; k++) if(k != a) pool.push_back(k); int bb = pool[(size_t)b]; pool.erase(pool.begin() + b); int cc = pool[(size_t)c]; rm = {a + 1, bb + 1, cc + 1}; }
+        Inst X; if(!build(X, L)) { o.fail("C12/harness-build", "could not build the layout through the bank API"); return; }
+        std::string rs;
+        for(int b : rm) { OPN2_Bank bk; OPN2::BankMap::iterator it = X.I.synth().m_insBanks.find((size_t)((b == 6 ? 133 : b == 7 ? 128 : bank_number(b)) + (BANKS[b].perc ? OPN2::PercussionTag : 0)));
+            if(it == X.I.synth().m_insBanks.end()) { o.fail("C12/harness-build", "bank to remove not found"); return; } it.to_ptrs(bk.pointer);
+            if(opn2_removeBank(X.I.dev, &bk) != 0) { o.fail("C12/remove-failed", "opn2_removeBank failed"); return; } L.present &= ~(1u << b); rs += " " + std::to_string(b); }
+        o.sample = "removed bank slots" + rs + " from the full layout; " + layout_str(L);
+        for(auto &h : HS) { check_note(X, L, h, o); if(o.bad) { return; } }
+        o.units = HS.size(); o.nontrivial = true; };
+      fams.push_back(F); }
     { en::Family F; F.name = "replaced_instrument"; F.count = 7 * 2 * 3; F.chunk = 4; F.budget_s = 30; F.describe = "an entry replaced through opn2_setInstrument (each of the first 7 banks x 2 entries x {before any note, after playing the old one, while the old one sounds}) is the one played next";
       F.run = [](uint64_t i, en::CaseOut &o) { int b = (int)(i % 7), e = (int)((i / 7) % 2), when = (int)(i / 14); Layout L; L.present = 0xFF; L.blankA = 0; L.blankB = 0; Inst X; if(!build(X, L)) { o.fail("C12/harness-build", "build"); return; }
         OPN2_MIDIPlayer *d = X.I.dev; Hist h; h.mode = 2; h.drumpart = false; h.path = 0; h.order = 0;
